@@ -1369,7 +1369,7 @@ class Exec(object):
             st.env.update(saved)
             return VList.from_py(out) if out else VList(0, get=_no_elem, conc=[])
         if g.ifs:
-            raise Unsupported("filtered comprehension over a symbolic list")
+            return self._filtered_comp(e, g, src, st)
 
         # map over a symbolic list: element i is elt[target := src[i]]; safety
         # obligations of elt are checked for a generic index
@@ -1398,6 +1398,61 @@ class Exec(object):
                 st2.env.clear()
                 st2.env.update(sv)
         return VList(src.n, get=get, et=None)
+
+    def _filtered_comp(self, e, g, src, st):
+        """[elt for x in xs if cond]: the sub-sequence of the elements that satisfy cond, in order.  Modelled by an
+        index selection sel (strictly increasing, into xs) with inverse inv: R[a] == elt(xs[sel(a)]), cond holds at
+        every selected index, and every index at which cond holds is selected.  cond and elt are evaluated on a generic
+        element (their safety obligations are owed for every element); both must be first-order values."""
+        self.trusted.add("[e for x in xs if c]: modelled as an order-preserving selection of the indices at which c holds "
+                         "(c and e pure)")
+        ex = self
+        saved = dict(st.env)
+        j = z3.Int(fresh_name("fj"))
+        self.assign(g.target, src.get(j), st)
+        dom = VBool(z3.And(j >= 0, j < src.n))
+        conds = [self.guard_eval(st, dom, lambda c_=c_: self.truth(self.ev(c_, st), st)) for c_ in g.ifs]
+        self.guard_eval(st, dom, lambda: self.ev(e.elt, st))
+        env_t = dict(st.env)
+        st.env.clear()
+        st.env.update(saved)
+
+        def at(i, what):
+            st2 = ex.cur_state
+            sv = dict(st2.env)
+            st2.env.clear()
+            st2.env.update(env_t)
+            ex.assign(g.target, src.get(i), st2)
+            n0, nob = len(st2.pc), len(ex.obligations)
+            try:
+                if what == "cond":
+                    return z3.And(*[tobool(ex.truth(ex.ev(c_, st2), st2)) for c_ in g.ifs])
+                return ex.ev(e.elt, st2)
+            finally:
+                del st2.pc[n0:]
+                del ex.obligations[nob:]
+                st2.env.clear()
+                st2.env.update(sv)
+        self.cur_state = st
+        probe = lift(at(j, "elt"))
+        if not isinstance(probe, (VInt, VRef, VStr, VBool)):
+            raise Unsupported("filtered comprehension with elements of type %r" % (probe,))
+        n = z3.Int(fresh_name("flt_n"))
+        sel = z3.Function(fresh_name("flt_sel"), IntS, IntS)
+        inv = z3.Function(fresh_name("flt_inv"), IntS, IntS)
+        arr = z3.Const(fresh_name("flt_arr"), z3.ArraySort(IntS, probe.t.sort()))
+        a, b, i = z3.Int(fresh_name("fa")), z3.Int(fresh_name("fb")), z3.Int(fresh_name("fi"))
+        st.define(n >= 0)
+        st.define(z3.ForAll([a], z3.Implies(z3.And(0 <= a, a < n), z3.And(
+            0 <= sel(a), sel(a) < src.n, at(sel(a), "cond"), z3.Select(arr, a) == lift(at(sel(a), "elt")).t,
+            inv(sel(a)) == a)), patterns=[z3.Select(arr, a)]))
+        st.define(z3.ForAll([a, b], z3.Implies(z3.And(0 <= a, a < b, b < n), sel(a) < sel(b)),
+                            patterns=[z3.MultiPattern(sel(a), sel(b))]))
+        st.define(z3.ForAll([i], z3.Implies(z3.And(0 <= i, i < src.n, at(i, "cond")),
+                                            z3.And(0 <= inv(i), inv(i) < n, sel(inv(i)) == i)), patterns=[inv(i)]))
+        res = VList(n, arr=arr, wrap=type(probe), et=type_of(probe))
+        res.filter_of = (src, sel, inv, lambda q: at(q, "cond"))
+        return res
 
     ev_GeneratorExp = ev_ListComp
 
